@@ -371,6 +371,112 @@ pub enum CStep {
     Heal,
     Kill { node: u8 },
     Restart { node: u8 },
+    /// persistent instance (Raft origin) registered / removed over HTTP; only generated for the C11 cluster scenario
+    PersistReg { node: u8, svc: u8, ip: u8 },
+    PersistDereg { node: u8, svc: u8, ip: u8 },
+}
+
+/// per-node memory of the bookkeeping oracle (C11 cluster scenario)
+#[derive(Default, Clone)]
+struct BkState {
+    prev_listed: BTreeSet<String>,
+    prev_count: BTreeMap<String, usize>,
+}
+
+fn bk_sig(l: &[Arc<Instance>]) -> String {
+    let mut v: Vec<String> = l.iter().map(|x| format!("{}:{}:{}:{}:{}:{}:{}", x.ip, x.ephemeral, x.healthy, x.enabled, x.weight, x.client_id, x.last_modified_millis)).collect();
+    v.sort();
+    v.join(",")
+}
+
+/// C11's cross-invariants between public queries of ONE node of a cluster (what exec_naming checks on a single node):
+/// counters of the service page == the instance query, every service with instances listed exactly once, a service leaves
+/// the listing only when it had no instances, every instance recorded for a client exists and carries that client id,
+/// the healthy-only / all queries return exactly the enabled (and healthy) instances, and (when `persist`) the persistent
+/// set written by the real snapshot builder == the non-ephemeral instances. The observation is bracketed by two reads of
+/// the instance lists and repeated when the registry's own timers or an incoming sync message changed them in between.
+async fn bookkeeping_invariants(n: &NodeH, st: &mut BkState, when: &str, persist: bool) -> VResult<()> {
+    use rnacos::naming::service_index::ServiceQueryParam;
+    let mut tries = 0;
+    loop {
+        tries += 1;
+        let mut all: BTreeMap<String, Vec<Arc<Instance>>> = BTreeMap::new();
+        for name in CSVCS.iter() {
+            all.insert(name.to_string(), instances_on(n, name).await);
+        }
+        let mut new_listed: BTreeSet<String> = BTreeSet::new();
+        let res: VResult<()> = async {
+            let p = ServiceQueryParam { namespace_id: Some(Arc::new(NS.to_string())), limit: 1000, ..Default::default() };
+            let (total, infos) = match n.app.naming_addr.send(NamingCmd::QueryServiceInfoPage(p)).await {
+                Ok(Ok(NamingResult::ServiceInfoPage((t, l)))) => (t, l),
+                _ => vfail!("C11.query_failed", "QueryServiceInfoPage failed on node {}", n.id),
+            };
+            vensure!(total == infos.len(), "C11.service_total", "{} on node {}: service page total {} but {} entries", when, n.id, total, infos.len());
+            let mut listed: BTreeMap<String, usize> = BTreeMap::new();
+            for info in &infos {
+                *listed.entry(info.service_name.as_ref().clone()).or_insert(0) += 1;
+                if let Some(l) = all.get(info.service_name.as_str()) {
+                    let healthy = l.iter().filter(|x| x.healthy).count();
+                    vensure!(info.instance_size as usize == l.len(), "C11.instance_count", "{} on node {}: service {} reports instance_size {} but the instance query returns {} ({})", when, n.id, info.service_name, info.instance_size, l.len(), bk_sig(l));
+                    vensure!(info.healthy_instance_size as usize == healthy, "C11.healthy_count", "{} on node {}: service {} reports healthy_instance_size {} but {} of its {} instances are healthy ({})", when, n.id, info.service_name, info.healthy_instance_size, healthy, l.len(), bk_sig(l));
+                }
+            }
+            for (name, c) in &listed {
+                vensure!(*c == 1, "C11.listed_twice", "{} on node {}: service {} is listed {} times", when, n.id, name, c);
+            }
+            for (name, l) in &all {
+                if !l.is_empty() {
+                    vensure!(listed.contains_key(name), "C11.service_not_listed", "{} on node {}: service {} has {} instances but is not in the service listing", when, n.id, name, l.len());
+                }
+                if st.prev_listed.contains(name) && !listed.contains_key(name) {
+                    vensure!(st.prev_count.get(name).copied().unwrap_or(0) == 0, "C11.service_dropped_with_instances", "{} on node {}: service {} disappeared from the listing although it had {} instances at the previous observation", when, n.id, name, st.prev_count[name]);
+                }
+            }
+            new_listed = listed.keys().cloned().collect();
+            if let Ok(Ok(NamingResult::ClientInstanceCount(list))) = n.app.naming_addr.send(NamingCmd::QueryClientInstanceCount).await {
+                for (client, cnt) in list {
+                    let real = all.values().flatten().filter(|x| x.client_id.as_str() == client.as_str()).count();
+                    vensure!(cnt <= real, "C11.client_instance_count", "{} on node {}: {} instances are recorded for client {} but {} instances carry that client id", when, n.id, cnt, client, real);
+                }
+            }
+            for (name, l) in &all {
+                let protect = l.iter().any(|x| x.enabled) && !l.iter().any(|x| x.enabled && x.healthy);
+                for only_healthy in [true, false] {
+                    let q = match n.app.naming_addr.send(NamingCmd::QueryList(skey(name), String::new(), only_healthy, None)).await {
+                        Ok(Ok(NamingResult::InstanceList(l))) => l,
+                        _ => vfail!("C11.query_failed", "QueryList failed on node {}", n.id),
+                    };
+                    let want: BTreeSet<String> = l.iter().filter(|x| x.enabled && (!only_healthy || x.healthy || protect)).map(|x| x.ip.as_ref().clone()).collect();
+                    let got: BTreeSet<String> = q.iter().map(|x| x.ip.as_ref().clone()).collect();
+                    vensure!(got == want, "C11.filtered_query", "{} on node {}: query (healthy only: {}) for {} returns {:?}, the enabled{} instances are {:?}", when, n.id, only_healthy, name, got, if only_healthy { " and healthy" } else { "" }, want);
+                }
+            }
+            if persist {
+                let recs = snapshot_records(n, "bk").await.map_err(|e| Violation::new("C11.observe_failed", e.to_string()))?;
+                let persisted = recs.iter().filter(|r| r.0.contains("NAMING_INSTANCE")).count();
+                let non_eph: usize = all.values().map(|l| l.iter().filter(|x| !x.ephemeral).count()).sum();
+                vensure!(persisted == non_eph, "C11.persistent_set", "{} on node {}: {} persistent-instance records are written into a snapshot but {} non-ephemeral instances are registered", when, n.id, persisted, non_eph);
+                sim::count("probe.persistent_set_checked_cluster", 1);
+            }
+            Ok(())
+        }
+        .await;
+        let mut stable = true;
+        for name in CSVCS.iter() {
+            if bk_sig(&instances_on(n, name).await) != bk_sig(&all[*name]) {
+                stable = false;
+            }
+        }
+        if !stable && tries < 6 {
+            sim::count("probe.observation_repeated", 1);
+            continue;
+        }
+        res?;
+        st.prev_listed = new_listed;
+        st.prev_count = all.iter().map(|(k, v)| (k.clone(), v.len())).collect();
+        sim::count("probe.cluster_bookkeeping_observations", 1);
+        return Ok(());
+    }
 }
 
 fn c_ip(i: u8) -> String {
@@ -400,7 +506,13 @@ async fn served(n: &NodeH, svc: &str) -> BTreeSet<(String, bool, bool, u32)> {
 }
 
 pub async fn exec_c15(script: Value) -> ExecResult {
-    let id = "C15";
+    exec_c15_mode(script, false).await
+}
+
+/// `bookkeeping` = C11's cluster scenario: the same cluster, operations and faults, but the oracle is C11's set of
+/// per-node cross-invariants, evaluated on every live node after every step and every simulated second.
+pub async fn exec_c15_mode(script: Value, bookkeeping: bool) -> ExecResult {
+    let id = if bookkeeping { "C11" } else { "C15" };
     let seed = script["seed"].as_u64().unwrap_or(1);
     let cfg: NCfg = serde_json::from_value(script["cfg"].clone()).unwrap_or_default();
     let steps: Vec<CStep> = match serde_json::from_value(script["steps"].clone()) {
@@ -442,6 +554,20 @@ pub async fn exec_c15(script: Value) -> ExecResult {
         let mut http_removed_at: BTreeMap<(u8, u8), u64> = BTreeMap::new();
         let mut rng = Rng::derive(seed, "C15.exec", 0);
         let mut last_beat = sim::now_us();
+        let mut bk: BTreeMap<u64, BkState> = BTreeMap::new();
+        let mut bk_obs = 0u64;
+        macro_rules! bookkeeping {
+            ($when:expr, $persist:expr) => {{
+                if bookkeeping {
+                    for x in all_ids.iter().filter(|x| !killed.contains(x)) {
+                        if let Some(nh) = node(*x) {
+                            bookkeeping_invariants(&nh, bk.entry(*x).or_default(), $when, $persist).await?;
+                            bk_obs += 1;
+                        }
+                    }
+                }
+            }};
+        }
         // heartbeats of the HTTP instances continue throughout (otherwise they legitimately expire)
         macro_rules! beats {
             () => {{
@@ -466,6 +592,7 @@ pub async fn exec_c15(script: Value) -> ExecResult {
                     advance(slice).await;
                     rest -= slice;
                     beats!();
+                    bookkeeping!(&format!("t={} ms", sim::now_us() / 1000), rest == 0 && slice >= 300);
                     if std::env::var("RNSIM_NM_DEBUG").is_ok() && (sim::now_us() / 1_000_000) % 3 == 0 {
                         for s in 0..3usize {
                             let mut line = format!("dbg t={} {}:", sim::now_us() / 1000, CSVCS[s]);
@@ -608,12 +735,41 @@ pub async fn exec_c15(script: Value) -> ExecResult {
                         let via = all_ids.iter().find(|y| !killed.contains(y)).cloned().unwrap_or(1);
                         start_node(&root, x, x == 1, if x == 1 { None } else { Some(via) }, &cfg.node).await.map_err(|e| Violation::new("harness.start", e.to_string()))?;
                         killed.remove(&x);
+                        bk.remove(&x);
                         sim::count("probe.node_rejoined", 1);
+                    }
+                }
+                CStep::PersistReg { node: x, svc, ip } | CStep::PersistDereg { node: x, svc, ip } => {
+                    let x = pick_node(*x);
+                    if killed.contains(&x) {
+                        continue;
+                    }
+                    let reg = matches!(st, CStep::PersistReg { .. });
+                    let q = format!("serviceName={}&ip=10.7.1.{}&port=8080&namespaceId={}&groupName={}&ephemeral=false", CSVCS[*svc as usize % 3], ip % 3 + 1, NS, GROUP);
+                    if let Some((200, _)) = within(8_000, http_call(&node(x).unwrap(), if reg { "POST" } else { "DELETE" }, &format!("/nacos/v1/ns/instance?{}", q))).await {
+                        ops += 1;
+                        sim::count("probe.cluster_persistent_op", 1);
                     }
                 }
             }
             advance(3).await;
             beats!();
+            bookkeeping!(&format!("after step {} ({:?})", i, st), false);
+        }
+        if bookkeeping {
+            // quiescence, observed every second: time-outs of the dead nodes' clients, clean-up of empty services
+            heal_all();
+            net_set_cfg(cfg.net.clone());
+            sim::event("quiescence");
+            adv!(script["bound_ms"].as_u64().unwrap_or(40_000));
+            bookkeeping!("at the end", true);
+            digest = digest_str(&format!("{}", bk_obs));
+            for x in all_ids.iter().filter(|x| !killed.contains(x)) {
+                for name in CSVCS.iter() {
+                    digest ^= digest_str(&bk_sig(&instances_on(&node(*x).unwrap(), name).await)).rotate_left(*x as u32);
+                }
+            }
+            return Ok(());
         }
         // ---- quiescence: faults stop, heartbeats continue ----
         heal_all();
@@ -740,6 +896,25 @@ pub async fn exec_c15(script: Value) -> ExecResult {
         kill_node(n.id).await;
     }
     ExecResult { violation: r.err(), info }
+}
+
+/// script of C11's cluster scenario: C15's generator plus persistent-instance operations
+pub fn gen_c11_cluster(seed: u64) -> Value {
+    let mut v = C15.generate(seed ^ 0x11c1, Tier::Quick);
+    let mut rng = Rng::derive(seed, "C11c.gen", 0);
+    let mut steps: Vec<CStep> = serde_json::from_value(v["steps"].clone()).unwrap_or_default();
+    let extra = rng.range(0, 6);
+    for _ in 0..extra {
+        let at = rng.below(steps.len() as u64 + 1) as usize;
+        let (node, svc, ip) = (rng.below(3) as u8, rng.below(3) as u8, rng.below(3) as u8);
+        steps.insert(at, if rng.chance(0.7) { CStep::PersistReg { node, svc, ip } } else { CStep::PersistDereg { node, svc, ip } });
+    }
+    v["steps"] = serde_json::to_value(&steps).unwrap();
+    v["check"] = json!("C11");
+    v["cluster"] = json!(true);
+    v["seed"] = json!(seed);
+    v["bound_ms"] = json!(*rng.pick(&[20_000u64, 40_000, 60_000]));
+    v
 }
 
 pub struct C15;
